@@ -309,6 +309,11 @@ func (b Builder) Defer(kind DoAction, fn Expr, buildCall func(Builder, Expr, ...
 	if self == nil {
 		return
 	}
+	if kind == DeferAlways {
+		// Reached on every path to a return, but not if a call before it panics:
+		// the deferred call may run only if the statement was executed.
+		kind = DeferInCond
+	}
 	id := b.Prog.Val(b.Func.nextDeferID)
 	b.Func.nextDeferID++
 	switch kind {
